@@ -58,7 +58,9 @@ func (ld *Loaded) lemmaVC(fn *ssa.Function, kcase int) (vc *VC, err error) {
 		}
 	}()
 	x := NewExec(ld)
+	x.useContracts = true // real functions called by a lemma are seen through their (discharged) contracts
 	st := &State{h: Heap{}}
+	x.setupGhost(fn.Pkg, st)
 	x.initPackage(fn.Pkg, st)
 	var args []Value
 	for i, p := range fn.Params {
@@ -75,9 +77,7 @@ func (ld *Loaded) lemmaVC(fn *ssa.Function, kcase int) (vc *VC, err error) {
 		}
 		args = append(args, v)
 	}
-	x.inSpec++
 	rv, _ := x.run(fn, args, st, x.b.True())
-	x.inSpec--
 	q := &Query{Hyps: x.hyps, Goals: []NamedTerm{{"lemma", rv.(*Term)}}}
 	q.Goals = append(q.Goals, x.obligs...)
 	name := "spec." + fn.Name()
